@@ -10,6 +10,7 @@ configuration block becomes current with `RC` (a `reconfig` step).  Message line
   MC i attr       AttrsValueChanged raised for an overridden attribute (skill level)
   BS i e mods     warfare-buff modifiers registered for projector (i, e)  (`-` = none)
   MR i attr       public read, prints `v <value>`
+  QB              prints `B item effect mods` (specification-derived buff modifiers of running boosts), then `.`
   QK              prints `K item attr value` for every cached entry of the configuration's items, then `.`
   X               forget everything dynamic (new solar system)
 -/
@@ -63,6 +64,22 @@ def mstepLine (x : MSt) (line : String) : MSt × List String :=
     | _, _ => bad
   | ["QK"] =>
     (x, (tblOf x.st.u x.m.cfg (tblFun x.m.tbl)).map (fun e => s!"K {e.1.1} {e.1.2} {showRat e.2}") ++ ["."])
+  | ["QB"] =>
+    -- the warfare-buff modifiers the *specification* derives (buff id attributes read from the from-scratch
+    -- table, templates of the universe) for every running boost effect
+    let u := x.st.u
+    let t := evalAll u x.m.cfg specImmune specLimited pen
+    let oi (o : Option Int) : String := match o with | some v => toString v | none => "-"
+    let showM (m : Modifier) : String :=
+      s!"{m.filter},{m.domain},{oi m.extra},{m.tgtAttr},{m.op},{m.agg},{oi m.aggKey},{m.srcAttr}"
+    let ls := x.m.cfg.items.flatMap fun a =>
+      ((running u x.m.dyn a).filter (·.isBuff)).map fun e =>
+        match buffModifiers u (readDep u t) a with
+        | .ok ms =>
+          let l := ((ms.map showM).mergeSort (fun p q => p ≤ q)).eraseDups
+          s!"B {a.id} {e.id} " ++ (if l.isEmpty then "-" else ";".intercalate l)
+        | .error _ => s!"B {a.id} {e.id} err"
+    (x, ls ++ ["."])
   | _ =>
     -- universe / configuration lines go to the shared parser
     let r := step x.st line
